@@ -1,8 +1,22 @@
 #!/bin/bash
-# seedall.sh: run every seeded change against the check of its property (and extra properties listed in meta.json "also")
-for d in /verif/seeded/C*-*/; do
-  id=$(basename $d); p=${id%-*}
+# seedall.sh [ids...]: run every seeded change against the check of its property (and the extra
+# properties listed in meta.json "also"). Works on a scratch worktree of /repo's HEAD (so /repo and
+# the evidence files are left alone); the verifier is pointed at it with -repo. Equivalent to
+# seedtest.sh, which applies the change to /repo itself.
+WT=/tmp/wt-seed-$$
+SV=/tmp/seed-verif-$$
+mkdir -p $SV; cp /verif/known_findings.json $SV/; cp -r /verif/contracts_mirror $SV/ 2>/dev/null
+git -C /repo worktree add -q --detach $WT HEAD || exit 2
+export GOFLAGS=-mod=mod GOPROXY=off GOSUMDB=off GOTOOLCHAIN=local
+ids="$@"; [ -z "$ids" ] && ids=$(ls -d /verif/seeded/C*-* | xargs -n1 basename)
+for id in $ids; do
+  d=/verif/seeded/$id; p=${id%-*}
   also=$(jq -r '(.also // []) | join(" ")' $d/meta.json 2>/dev/null)
   echo "##### $id"
-  /verif/seedtest.sh $p $d/patch.diff $also
+  ( cd $WT && git apply $d/patch.diff ) || { echo "patch does not apply"; continue; }
+  for q in $p $also; do
+    /verif/bin/govc run -repo $WT -verif $SV -prop $q -tier quick 2>&1 | grep -E "^VIOLATION|^property|KNOWN|BROKEN" | sed "s#replay=$SV/##" | cut -c1-240
+  done
+  git -C $WT checkout -q -- . ; git -C $WT clean -fdq
 done
+git -C /repo worktree remove --force $WT; rm -rf $SV
